@@ -461,7 +461,7 @@ def lock (cfg : Cfg) (s : State) (k : Kind) (pid : Id) (t : Txn) : Except Err (S
           | .ok _ =>
             match refreshAfter s k pid with
             | .error e => .error e
-            | .ok _ => .ok (putSP s k pid sp', [⟨t.client, k.sc, t.value⟩])
+            | .ok _ => .ok (putSP s k pid sp', [{ src := t.client, dst := k.sc, amount := t.value }])
 
 /-- `MintRewards(clientId, …)`: service charge to the delegate wallet, then the caller's own pool reward.
 Returns the pool, the queued transfers and `none` when there is nothing for the caller at all. -/
@@ -469,13 +469,13 @@ def mintRewards (sp : SP) (k : Kind) (client : Id) : Option (SP × List Ledger.T
   let hasCharge := decide (sp.wallet = some client) && decide (0 < sp.reward)
   let charge := if hasCharge then sp.reward else 0
   let sp1 := if hasCharge then { sp with reward := 0 } else sp
-  let tr1 : List Ledger.Transfer := if hasCharge then [⟨k.sc, client, charge⟩] else []
+  let tr1 : List Ledger.Transfer := if hasCharge then [{ src := k.sc, dst := client, amount := charge }] else []
   match kvGet sp1.pools client with
   | none => if charge = 0 then none else some (sp1, tr1, charge)
   | some d =>
     if 0 < d.reward then
       some ({ sp1 with pools := kvSet sp1.pools client { d with reward := 0 } },
-            tr1 ++ [⟨k.sc, client, d.reward⟩], wrapAdd d.reward charge)
+            tr1 ++ [{ src := k.sc, dst := client, amount := d.reward }], wrapAdd d.reward charge)
     else some (sp1, tr1, charge)
 
 /-- `StakePoolUnlock`; `wall` is the `time.Now()` the code reads (seconds). -/
@@ -515,7 +515,7 @@ def unlock (cfg : Cfg) (s : State) (k : Kind) (pid : Id) (t : Txn) (wall : Nat) 
               | .ok _ =>
                 match refreshAfter s k pid with
                 | .error e => .error e
-                | .ok _ => .ok (putSP s k pid sp2, trR ++ [⟨k.sc, t.client, dp.balance⟩])
+                | .ok _ => .ok (putSP s k pid sp2, trR ++ [{ src := k.sc, dst := t.client, amount := dp.balance }])
 
 /-- `collectReward` of the three contracts. -/
 def collect (s : State) (k : Kind) (pid : Id) (client : Id) : Except Err (State × List Ledger.Transfer) :=
